@@ -10,7 +10,8 @@ import copy, json, os, glob
 from vf import coqrun as cq
 from vf import c22_impl as I
 
-RULE = ("edit sequences of 6-10 ops drawn from create_*, drop_buses/lines/trafos/elements, fuse_buses, reindex_buses, "
+RULE = ("(plus a guarded stream: the same on nets without controllers / unlisted tables, ops restricted to those with an inv_step "
+        "theorem) edit sequences of 6-10 ops drawn from create_*, drop_buses/lines/trafos/elements, fuse_buses, reindex_buses, "
         "reindex_elements, create_continuous_bus/elements_index, select_subnet, merge_nets, replace_*, drop_out_of_service_elements "
         "on nets of 6-9 buses with shuffled gapped indices; every step is one case (state before, op); a step that breaks the "
         "invariant is reverted so that every case starts from a consistent net; non-trivial = the op changed at least one table "
@@ -20,7 +21,9 @@ ASSUMPTIONS = ["drop_buses(drop_elements=False) is only exercised through fuse_b
                "reference-column (name based) groups and id_characteristic references are outside the Coq model (oracle only; name groups are C27)",
                "replace_* and drop_out_of_service_elements are outside the Coq model: their steps are checked by the oracle only"]
 TRUSTED = ["vf/c22_impl.py: observation of the key/foreign-key columns of the real tables and the python re-implementation of inv (dangling)",
-           "classification guards of the recorded findings (props/c22.py classify) mirror the boolean guards G22_* of coq/C22/Model.v"]
+           "classification guards of the recorded findings (props/c22.py classify) mirror the boolean guards G22_* of coq/C22/Model.v; "
+           "in addition the model evaluates G22 on every modelled (state, op): a dangling reference is only accepted as a recorded "
+           "finding when G22 is false"]
 
 KN = ["Load", "Sgen", "Gen", "ExtGrid", "Shunt", "Ward", "Xward", "Storage", "Line", "Impedance", "Trafo", "Trafo3w", "Dcline", "Svc"]
 KCODE = {k: i for i, k in enumerate(I.KINDS)}
@@ -309,13 +312,17 @@ def _judge(ctx, cases):
     terms, idx = [], []
     for i, c in enumerate(cases):
         if c["model"]:
-            terms.append("run_step_delta %s %s" % (net_term(c["before"]), op_term(c["op"], c["nets2"])))
+            terms.append("run_step_g %s %s" % (net_term(c["before"]), op_term(c["op"], c["nets2"])))
             idx.append(i)
     model = ctx.coq_eval("c22", "C22.Model", terms, prelude="Open Scope Z_scope.", shard=22, timeout=280) if terms else []
     agree = {}
-    for i, m in zip(idx, model):
+    guard = {}
+    for i, mg_ in zip(idx, model):
         c = cases[i]
         ctx.corr_checked += 1
+        g22, m = mg_
+        guard[i] = g22
+        ctx.count("G22:%s:%s" % (c["op"][0], g22))
         inv_before, r = m
         brief = {"op": c["op"], "before": c["before"], "nets2": c["nets2"]}
         ok = True
@@ -339,6 +346,10 @@ def _judge(ctx, cases):
                 elif inv_after != (not c["dangling"]):
                     ok = False
                     ctx.disagreement("%s: model inv=%s, oracle dangling=%s" % (c["op"], inv_after, c["dangling"][:3]), brief)
+                elif g22 is True and not inv_after:
+                    # C22_inv_step_*: under the guard G22 the step keeps the invariant - a counterexample to a proved theorem
+                    ok = False
+                    ctx.disagreement("%s: guard G22 holds but the invariant breaks (contradicts the inv_step theorem)" % (c["op"],), brief)
         agree[i] = ok
     # oracle
     for i, c in enumerate(cases):
@@ -349,6 +360,8 @@ def _judge(ctx, cases):
             fid = classify(c["before"], c["op"], cls, c["nets2"], detail)
             if fid is not None and c["model"] and not agree.get(i, False):
                 fid = None                      # impl and faithful model disagree here: not the recorded defect
+            if fid is not None and guard.get(i) is True:
+                fid = None                      # the guard of the proved inv_step theorem holds: cannot be a recorded defect
             key = fid or "spec"
             if (key, cls) in seen:
                 continue
@@ -393,6 +406,16 @@ def run(ctx):
             "reindex_buses", "reindex_elements", "cont_bus_index", "fuse_buses", "select_subnet"]
     for s in range(ctx.n(5, 100)):
         _run_sequence(ctx, rng, cases, rng.randint(6, 10), allow=core, facts=False)
+    # guarded stream: nets without controllers and without the unlisted (svc) table, where the guards G22_* of the inv_step
+    # theorems of drop_buses / fuse_buses / reindex_buses / create_continuous_*_index / select_subnet mostly hold, so that the
+    # theorems are confronted with the implementation (a guard-true step that breaks the invariant is a disagreement)
+    guarded_ops = ["cont_elements_index", "cont_bus_index", "reindex_elements", "reindex_buses", "fuse_buses", "drop_buses",
+                   "select_subnet", "drop_elements", "drop_lines", "drop_trafos", "create_el", "create_switch"]
+    for s in range(ctx.n(5, 80)):
+        net = I.gen_net(rng, name_groups=False, tchar=False, facts=False)
+        if len(net.controller):
+            net.controller.drop(net.controller.index, inplace=True)
+        _run_sequence(ctx, rng, cases, rng.randint(5, 8), allow=guarded_ops, facts=False, net=net)
     t1 = time.time()
     _judge(ctx, cases)
     ctx.notes.append("impl phase %.1fs, model+judge phase %.1fs" % (t1 - t0, time.time() - t1))
